@@ -358,23 +358,24 @@ Section Main.
     rewrite sels_of_list, norm_seg_list. reflexivity.
   Qed.
 
-  Lemma single_items s t : SELITEM s [t] -> ITEMS (LCons s LNil) [[t]].
+  Lemma single_items s x : SELITEM s x -> ITEMS (LCons s LNil) [x].
   Proof.
-    intros [Hnb Hitem]. split; [exact Hnb|]. split; [cbn; lia|].
+    intros [Hnb Hitem]. split; [exact Hnb|].
+    split; [destruct x; [contradiction Hnb|cbn [sep_by length]; lia]|].
     intros f g acc zs Hf Hg. cbn [sep_by length] in *. destruct g as [|g]; [lia|].
     destruct (Hitem f rbracket zs Hf (or_introl eq_refl)) as (st' & Hit & Hat).
-    rewrite (items_after f g (norm_sel s) st' rbracket zs acc Hat (or_introl eq_refl) [t] Hit Hnb
+    rewrite (items_after f g (norm_sel s) st' rbracket zs acc Hat (or_introl eq_refl) x Hit Hnb
                ltac:(intros H; discriminate H)).
     cbn [tk rbracket]. destruct g as [|g]; [lia|]. rewrite items_loop_S. cbn [st0 s_cur].
     change (is_kind TRBracket rbracket) with true. cbv iota.
     rewrite norm_sels_cons. cbn [sels_list norm_sels rev]. reflexivity.
   Qed.
 
-  Lemma bare_bracket_seg s t :
-    SELITEM s [t] -> norm_seg (GSel s) = GList (LCons (norm_sel s) LNil) ->
-    SEG (GSel s) (lbracket :: [t] ++ [rbracket]).
+  Lemma bare_bracket_seg s x :
+    SELITEM s x -> norm_seg (GSel s) = GList (LCons (norm_sel s) LNil) ->
+    SEG (GSel s) (lbracket :: x ++ [rbracket]).
   Proof.
-    intros Hs Hn. pose proof (bracket_seg (LCons s LNil) [[t]] (single_items s t Hs) ltac:(discriminate)) as [Hh Hseg].
+    intros Hs Hn. pose proof (bracket_seg (LCons s LNil) [x] (single_items s x Hs) ltac:(discriminate)) as [Hh Hseg].
     split; [exact Hh|]. intros f in_filter acc zs Hf Hz.
     etransitivity; [exact (Hseg f in_filter acc zs Hf Hz)|]. rewrite norm_seg_list, norm_sels_cons, Hn. reflexivity.
   Qed.
@@ -386,22 +387,18 @@ Section Main.
     change (rp_seg E (GSel s)) with (bare_form s && rp_sel E s) in Hr.
     apply andb_true_iff in Hr as [Hb Hr]. rewrite seg_toks_sel in Hx.
     destruct s; try discriminate Hb.
-    - injection Hx as <-. apply bare_bracket_seg; [|reflexivity].
+    - injection Hx as <-.
+      apply (bare_bracket_seg (SName name) (tk1 TSQ (canonical_body name))); [|reflexivity].
       exact (case_SName name Hg Hp Hr _ eq_refl).
-    - (* a bare slice *)
-      cbn [sel_toks] in Hx. injection Hx as <-.
-      destruct (slice_gate start stop step Hg Hr) as (Ha & Hb' & Hc).
-      split; [apply headok_cons; split; discriminate|].
-      intros f in_filter acc zs Hf Hz. cbn [app enter]. rewrite parse_path_S. cbn [st0 s_cur tk].
-      fold (st0 (mkTok TSliceStart (opt_text start))
-                (mkTok TSliceStop (opt_text stop) :: mkTok TSliceStep (step_text step) :: zs)).
-      change (match step with Some z => str_of_Z z | None => [49%N] end) with (step_text step).
-      rewrite (slice_parse E start stop step zs Ha Hb' Hc). cbn [bind fst snd].
-      unfold continue_with. rewrite next_st0 by (try discriminate; exact Hz). cbn [bind snd].
-      destruct step; reflexivity.
-    - injection Hx as <-. apply bare_bracket_seg; [|reflexivity].
+    - (* a bare slice: printed in brackets *)
+      cbn [sel_toks bind] in Hx. injection Hx as <-.
+      apply (bare_bracket_seg (SSlice start stop step)
+               [mkTok TSliceStart (opt_text start); mkTok TSliceStop (opt_text stop);
+                mkTok TSliceStep (match step with Some z => str_of_Z z | None => [49%N] end)]); [|reflexivity].
+      exact (case_SSlice start stop step Hg Hp Hr _ eq_refl).
+    - injection Hx as <-. apply (bare_bracket_seg SWild (tk1 TWild [42%N])); [|reflexivity].
       exact (case_SWild Hg Hp Hr _ eq_refl).
-    - injection Hx as <-. apply bare_bracket_seg; [|reflexivity].
+    - injection Hx as <-. apply (bare_bracket_seg SKeys (tk1 TKeys (e_keys E))); [|reflexivity].
       exact (case_SKeys Hg Hp Hr _ eq_refl).
   Qed.
 
